@@ -3,3 +3,4 @@
 //! Generator output is committed; the generators are only run by hand.
 pub mod grid;
 pub mod shipped;
+pub mod toy_towers;
